@@ -135,13 +135,41 @@ func (e *encCase) tag() string {
 		o.FilterStrength, o.FilterSharpness, o.FilterType, o.SNSStrength, o.Preset, o.Pass)
 }
 
+// withFeature adds a deviation class to the second field of a tag.
+func withFeature(tag, feat string) string {
+	f := strings.SplitN(tag, ":", 3)
+	if len(f) < 3 {
+		return tag + ":" + feat
+	}
+	if f[0] != "foreign" {
+		return f[0] + "+" + feat + ":" + f[1] + ":" + f[2]
+	}
+	if f[1] == "plain" {
+		f[1] = feat
+	} else {
+		f[1] += "+" + feat
+	}
+	return strings.Join(f, ":")
+}
+
 func checkStream(c *Ctx, tag string, payload []byte, viaPublic bool) {
 	c.D.Evaluations++
 	line, w, h, fy, fu, fv, pan := goDecode(payload)
 	if pan != nil {
 		c.Violate("decoder-panic", fmt.Sprint(pan), map[string]any{"tag": tag, "payload": hex.EncodeToString(payload)})
 	}
-	c.Case("dec "+tag+" "+hex.EncodeToString(payload), line)
+	// the same stream through the pure-Go kernels: where the dispatched (assembly) kernels
+	// give another picture, the stream is reported under the class "simd16" and the
+	// portable result is checked against the specification as a case of its own
+	var pline string
+	webp.VerifWithPortableDecoderKernels(func() { pline, _, _, _, _, _, _ = goDecode(payload) })
+	if pline != line {
+		c.Count("dispatched-kernels-differ-from-portable")
+		c.Case("dec "+withFeature(tag, "simd16")+" "+hex.EncodeToString(payload), line)
+		c.Case("dec portable:"+tag+" "+hex.EncodeToString(payload), pline)
+	} else {
+		c.Case("dec "+tag+" "+hex.EncodeToString(payload), line)
+	}
 	c.Count("result:" + strings.SplitN(line, " ", 2)[0])
 	if viaPublic && strings.HasPrefix(line, "ok") {
 		// the public entry point must return the same planes
@@ -247,5 +275,7 @@ func main() {
 		c.D.Rule = "Go lossy.DecodeFrame planes (before and after the loop filter) = extracted Vp8Spec.decode planes, bit-exact, on encoder outputs, testdata files and foreign streams; kernels vs their definitions"
 		testdataStreams(c)
 		encoderStreams(c)
+		foreignStreams(c)
+		kernelCases(c)
 	})
 }
